@@ -101,6 +101,14 @@ const (
 	SPGISTNulls   = 1 << 3
 )
 
+// BRIN constants
+const (
+	// BRIN page types, stored in the last uint16 of the 8-byte BrinSpecialSpace
+	BRINPageTypeMeta    = 0xF091
+	BRINPageTypeRevmap  = 0xF092
+	BRINPageTypeRegular = 0xF093
+)
+
 // IndexPageInfo contains parsed index page information
 type IndexPageInfo struct {
 	PageNumber   uint32     `json:"page_number"`
@@ -242,6 +250,9 @@ func detectIndexType(page []byte) IndexType {
 			return IndexTypeGiST
 		case pageID == SPGISTPageID:
 			return IndexTypeSPGiST
+		case specialSize == 8 && pageID >= BRINPageTypeMeta && pageID <= BRINPageTypeRegular:
+			// BrinSpecialSpace is MAXALIGN(1) = 8 bytes, page type in its last uint16
+			return IndexTypeBRIN
 		}
 	}
 	
